@@ -44,7 +44,7 @@ static std::string gen_group(rng &r, char lang)
 {
 	std::string s;
 	switch (lang) {
-	case 'd': { int n = r.range(1, 5); for (int i = 0; i < n; i++) s += (char)r.range('0', '9'); break; }
+	case 'd': { int n = r.chance(1, 25) ? r.range(9, 12) : r.range(1, 5); for (int i = 0; i < n; i++) s += (char)r.range('0', '9'); break; }
 	case 'D': { int n = r.range(1, 3); for (int i = 0; i < n; i++) s += (char)r.range('0', '9'); break; }
 	case 'a': { int n = r.range(1, 5); for (int i = 0; i < n; i++) s += (char)r.range('a', 'z'); break; }
 	case 'A': { int n = r.range(0, 4); for (int i = 0; i < n; i++) s += (char)r.range('a', 'z'); break; }
@@ -58,7 +58,10 @@ static std::string gen_group(rng &r, char lang)
 struct espec {
 	int id; bool mount; int pat; std::vector<int> groups; std::string method; int style;
 	std::string key; int child; std::string mregex, murl; int part;
+	int slot = 0;
 };
+// typed handlers (url_dispatcher::map with member functions): digits -> int, letters/word -> std::string, the one-character group -> char
+static bool typed_capable(pat const &P) { std::string g = P.glang; return g == "d" || g == "ad" || g == "w" || g == "b"; }
 struct nspec { std::vector<espec> entries; int parent; std::string name; };
 struct tree { std::vector<nspec> nodes; int nhandlers; };
 
@@ -81,11 +84,13 @@ static tree gen_tree(rng &r)
 				e.id = t.nhandlers++;
 				e.pat = r.below(NPATS);
 				int ng = PATS[e.pat].ngroups;
-				e.style = r.below(4);                       // 0 assign (classic, selected groups) 1 assign_generic 2 map_generic 3 map_generic with method
+				e.style = r.below(5);                       // 0 assign (classic, selected groups) 1 assign_generic 2 map_generic 3 map_generic with method 4 typed map()
+				if (e.style == 4 && !typed_capable(PATS[e.pat])) e.style = 0;
 				int nsel = ng ? r.range(1, std::min(ng, 6)) : 0;
 				if (e.style == 0) { for (int g = 0; g < nsel; g++) e.groups.push_back(r.chance(1, 8) ? 0 : r.range(1, ng)); if (ng == PATS[e.pat].ngroups && PATS[e.pat].tmpl && r.chance(2, 3)) { e.groups.clear(); for (int g = 1; g <= ng && g <= 6; g++) e.groups.push_back(g); } }
+				else if (e.style == 4) { for (int g = 1; g <= ng; g++) e.groups.push_back(g); e.slot = hi; }
 				else for (int g = 0; g <= ng; g++) e.groups.push_back(g);
-				if (e.style == 3) { static char const *ms[] = { "GET", "POST", "(PUT|DELETE)", "P.*", "get", "GET|HEAD", "P(OS|U)T", "[A-Z]+T", "(PATCH|PUT)" }; e.method = ms[r.below(9)]; }
+				if (e.style == 3 || (e.style == 4 && r.chance(1, 3))) { static char const *ms[] = { "GET", "POST", "(PUT|DELETE)", "P.*", "get", "GET|HEAD", "P(OS|U)T", "[A-Z]+T", "(PATCH|PUT)" }; e.method = ms[r.below(9)]; }
 				if (PATS[e.pat].tmpl) e.key = "k" + std::to_string(hi);
 				hi++;
 			} else {
@@ -125,6 +130,12 @@ static std::vector<call> g_calls;
 
 class napp : public cppcms::application {
 public:
+	int slot_id[6];
+	void rec(int slot, std::vector<std::string> const &a) { call c; c.id = slot_id[slot]; c.args = a; g_calls.push_back(c); }
+	template <int S> void t_i(int v) { rec(S, { std::to_string(v) }); }
+	template <int S> void t_s(std::string const &v) { rec(S, { v }); }
+	template <int S> void t_c(char v) { rec(S, { std::string(1, v) }); }
+	template <int S> void t_si(std::string v, int n) { rec(S, { v, std::to_string(n) }); }
 	napp(cppcms::service &s, tree const &t, int node, std::vector<napp *> &all) : cppcms::application(s)
 	{
 		all[node] = this;
@@ -154,8 +165,22 @@ public:
 			case 2:
 				dispatcher().map_generic(booster::regex(re), [id](cppcms::application &, booster::cmatch const &m) { call c; c.id = id; for (size_t i = 0; i < m.size(); i++) c.args.push_back(m[i]); g_calls.push_back(c); return true; });
 				break;
-			default:
+			case 3:
 				dispatcher().map_generic(e.method, booster::regex(re), [id](cppcms::application &, booster::cmatch const &m) { call c; c.id = id; for (size_t i = 0; i < m.size(); i++) c.args.push_back(m[i]); g_calls.push_back(c); return true; });
+				break;
+			default: {
+				slot_id[e.slot] = id;
+				std::string gl = PATS[e.pat].glang;
+#define TYPED_(S) case S: \
+				if (gl == "d") { if (e.method.empty()) dispatcher().map(re, &napp::t_i<S>, this, 1); else dispatcher().map(e.method, re, &napp::t_i<S>, this, 1); } \
+				else if (gl == "w") { if (e.method.empty()) dispatcher().map(re, &napp::t_s<S>, this, 1); else dispatcher().map(e.method, re, &napp::t_s<S>, this, 1); } \
+				else if (gl == "b") { if (e.method.empty()) dispatcher().map(re, &napp::t_c<S>, this, 1); else dispatcher().map(e.method, re, &napp::t_c<S>, this, 1); } \
+				else { if (e.method.empty()) dispatcher().map(re, &napp::t_si<S>, this, 1, 2); else dispatcher().map(e.method, re, &napp::t_si<S>, this, 1, 2); } \
+				break;
+				switch (e.slot) { TYPED_(0) TYPED_(1) TYPED_(2) TYPED_(3) TYPED_(4) TYPED_(5) }
+#undef TYPED_
+				O().count("typed_handlers_registered");
+			}
 			}
 			if (!e.key.empty()) mapper().assign(e.key, PATS[e.pat].tmpl);
 		}
@@ -189,6 +214,19 @@ static int model_dispatch(tree const &t, int node, std::string const &url, std::
 		if (!method_ok(e.method, method)) continue;
 		if (!std::regex_match(url, m, cre(PATS[e.pat].regex))) continue;
 		args.clear();
+		if (e.style == 4) {
+			// the arguments are the captured groups converted to the parameter types; a group that does not convert (here: a number
+			// beyond int) makes the handler not match and the search goes on, as documented
+			std::string gl = PATS[e.pat].glang; bool ok = true;
+			for (size_t k = 0; k < gl.size() && ok; k++) {
+				std::string g = m[k + 1].str();
+				if (gl[k] == 'd') { std::string z = g; while (z.size() > 1 && z[0] == '0') z.erase(0, 1); if (z.size() > 10 || strtoll(z.c_str(), 0, 10) > 2147483647LL) ok = false; else args.push_back(std::to_string(strtoll(z.c_str(), 0, 10))); }
+				else args.push_back(g);
+			}
+			if (!ok) { args.clear(); O().count("typed_handlers_skipped_for_a_group_that_does_not_convert"); continue; }
+			O().count(std::string("typed_handlers_expected_") + gl);
+			return e.id;
+		}
 		for (int g : e.groups) args.push_back(g < (int)m.size() ? m[g].str() : std::string());
 		return e.id;
 	}
